@@ -20,24 +20,9 @@ use std::sync::mpsc::channel;
 
 const P: &str = "C15";
 
-struct Sink;
-impl log::Log for Sink {
-    fn enabled(&self, _: &log::Metadata) -> bool {
-        true
-    }
-    fn log(&self, record: &log::Record) {
-        // format (and thereby evaluate) the arguments like the real program's logger does, then discard
-        let s = format!("{}", record.args());
-        std::hint::black_box(s);
-    }
-    fn flush(&self) {}
-}
-static SINK: Sink = Sink;
-
-/// the binary's default log level is `info`: log arguments (which contain arithmetic) are evaluated
+/// the harness-wide logger: log arguments (which contain arithmetic) are evaluated at the level of the case
 pub fn install_logger() {
-    let _ = log::set_logger(&SINK);
-    log::set_max_level(log::LevelFilter::Info);
+    crate::engine::logctl::install();
 }
 
 pub const ADVERSARIAL: [u32; 40] = [
